@@ -124,12 +124,31 @@ structure Flat where
   sig    : Sig
   chain  : List Fang
 
+/-- segments of two route patterns that share a node of the router: equal literals, or params (whatever their names) -/
+def Seg.same : Seg → Seg → Bool
+  | .lit a, .lit b => a == b
+  | .param _, .param _ => true
+  | _, _ => false
+
+/-- the route lies under the mount prefix, segment by segment -/
+def covers (pre route : List Seg) : Bool := pre.length ≤ route.length && (pre.zip route).all fun ab => ab.1.same ab.2
+
+-- the fangs of the applications mounted below whose composed prefix covers the route, innermost first: a route lies in the scope of every application
+--  whose mount prefix it is under, whoever registered it — the fangs sit on the mount node and guard the whole subtree (C04)
+mutual
+def coveringApp : App → List Seg → List Seg → List Fang
+  | .mk fangs _ mounts, pre, route => if covers pre route then coveringMounts mounts pre route ++ fangs.reverse else []
+def coveringMounts : List (List Seg × App) → List Seg → List Seg → List Fang
+  | [], _, _ => []
+  | (p, a) :: rest, pre, route => coveringMounts rest pre route ++ coveringApp a (pre ++ p) route
+end
+
 mutual
 /-- `outer`: the fangs of the enclosing applications, innermost application's first (each list as written reversed = innermost first) -/
 def flatten : App → List Seg → List Fang → List Flat
   | .mk fangs routes mounts, pre, outer =>
     let mine := fangs.reverse ++ outer
-    (routes.flatMap fun r => r.methods.map fun ms => ⟨pre ++ r.route, ms.1, ms.2, r.local.reverse ++ mine⟩) ++ flattenMounts mounts pre mine
+    (routes.flatMap fun r => r.methods.map fun ms => ⟨pre ++ r.route, ms.1, ms.2, r.local.reverse ++ coveringMounts mounts pre (pre ++ r.route) ++ mine⟩) ++ flattenMounts mounts pre mine
 def flattenMounts : List (List Seg × App) → List Seg → List Fang → List Flat
   | [], _, _ => []
   | (p, a) :: rest, pre, outer => flatten a (pre ++ p) outer ++ flattenMounts rest pre outer
